@@ -9,6 +9,7 @@ import (
 	"os"
 
 	"github.com/go-gts/gts"
+	"github.com/go-pars/pars"
 )
 
 func safeString(loc gts.Location) (s string, perr string) {
@@ -36,6 +37,32 @@ func safeParse(s string) (loc gts.Location, errs string, perr string) {
 	return l, "", ""
 }
 
+// splitOutcomes parses s through a reader that delivers it in two reads, cut at every offset, and
+// returns the distinct outcomes: the printed result, "!" for an error, "PANIC".
+func splitOutcomes(s string) []interface{} {
+	seen := map[string]bool{}
+	out := []interface{}{}
+	for k := 1; k < len(s); k++ {
+		o := func() (o string) {
+			defer func() {
+				if e := recover(); e != nil {
+					o = "PANIC"
+				}
+			}()
+			res, err := gts.ParseLocation.Parse(pars.NewState(newSplitReader(s, k)))
+			if err != nil {
+				return "!"
+			}
+			return res.Value.(gts.Location).String()
+		}()
+		if !seen[o] {
+			seen[o] = true
+			out = append(out, o)
+		}
+	}
+	return out
+}
+
 func safeBuilt(t interface{}) (loc gts.Location, perr string) {
 	defer func() {
 		if e := recover(); e != nil {
@@ -61,7 +88,7 @@ func locTextMain(args []string) {
 			if c != nil {
 				id := asStr(c["id"])
 				for _, t := range asList(c["terms"]) {
-					ev := J{"ev": "term", "case": id, "raw": t, "panic": "", "ok": false,
+					ev := J{"ev": "term", "case": id, "raw": t, "panic": "", "ok": false, "splits": []interface{}{},
 						"built": J{"k": "nil"}, "s": "", "v2": J{"k": "nil"}, "s2": "", "rebuilt": J{"k": "nil"}}
 					v, perr := safeBuilt(t)
 					if perr != "" {
@@ -77,6 +104,7 @@ func locTextMain(args []string) {
 						continue
 					}
 					ev["s"] = s
+					ev["splits"] = splitOutcomes(s)
 					v2, errs, perr := safeParse(s)
 					if perr != "" {
 						ev["panic"] = "parse: " + perr
@@ -97,7 +125,7 @@ func locTextMain(args []string) {
 				}
 				for _, x := range asList(c["strings"]) {
 					s := asStr(x)
-					ev := J{"ev": "str", "case": id, "in": s, "panic": "", "ok": false, "v": J{"k": "nil"},
+					ev := J{"ev": "str", "case": id, "in": s, "panic": "", "ok": false, "v": J{"k": "nil"}, "splits": splitOutcomes(s),
 						"s1": "", "ok1": false, "v1": J{"k": "nil"}, "s2": ""}
 					v, errs, perr := safeParse(s)
 					if perr != "" {
